@@ -240,6 +240,15 @@ def _hist_body(case, ctx):
                     sim.get_vorticity_divergence_l2_norm()
             if not (np.isfinite(d1) and d1 > 0):
                 raise Violation(f"stable time step {d1!r} not finite/positive {desc}")
+            # the limits of THIS simulator (its own velocity, viscosity, spacing), whatever other simulators are alive
+            um = float(np.max(np.sum(np.abs(sim.velocity_field.astype(np.float64)), axis=0)))
+            pre = float(op["prefac"])
+            if float(d1) * um / dx > pre * float(sim.cfl) * (1 + 64 * eps):
+                raise Violation(f"stable time step {d1!r} exceeds the CFL limit of this simulator (max|u|_1 {um!r}, dx {dx!r}, cfl {sim.cfl!r}, "
+                                f"prefactor {pre!r}) {desc}")
+            if cfg["nu"] * float(d1) / dx**2 > pre * 0.9 / (2 * dim) * (1 + 64 * eps):
+                raise Violation(f"stable time step {d1!r} exceeds the diffusion limit of this simulator (nu {cfg['nu']!r}, dx {dx!r}, "
+                                f"prefactor {pre!r}) {desc}")
             if prim.tobytes() != w0 or sim.velocity_field.tobytes() != u0:
                 raise Violation(f"a query changed the flow state {desc}")
         else:
